@@ -287,7 +287,7 @@ func (fr *Frame) loopFrame(st *State, ms *modSet, key, phase string, n ast.Node)
 	}
 	sort.Strings(keys)
 	for _, k := range keys {
-		if fr.modsInfo[k] == "all" {
+		if fr.modsInfo[k] == "all" || strings.HasPrefix(k, "ghost.") {
 			continue
 		}
 		if strings.HasPrefix(k, "chan.") {
@@ -634,6 +634,9 @@ func (fr *Frame) atHooks(st *State, s ast.Stmt) {
 	case *ast.IfStmt:
 		key = fr.src(n.Cond)
 	case *ast.ExprStmt:
+		if _, isCall := n.X.(*ast.CallExpr); isCall {
+			return // handled at the call itself (atCall)
+		}
 		key = fr.src(n.X)
 	case *ast.AssignStmt:
 		key = fr.src(n)
@@ -646,13 +649,38 @@ func (fr *Frame) atHooks(st *State, s ast.Stmt) {
 	default:
 		return
 	}
-	key = normKey(key)
+	fr.runAt(st, normKey(key), s)
+}
+
+// atCall applies at-clauses keyed by the source text of a call expression, before the call.
+func (fr *Frame) atCall(st *State, c *ast.CallExpr) {
+	if fr.contract == nil || len(fr.contract.Ats) == 0 {
+		return
+	}
+	fr.runAt(st, normKey(fr.src(c)), c)
+}
+
+func (fr *Frame) runAt(st *State, key string, s ast.Node) {
 	for _, as := range fr.contract.Ats {
 		if normKey(as.Key) != key {
 			continue
 		}
 		for _, use := range as.Uses {
 			fr.useLemma(st, use, s)
+		}
+		for _, mk := range as.Marks {
+			env := fr.specEnv(st)
+			t, err := fr.evalClause(env, mk.Cond)
+			if err != nil {
+				fr.x.u.oblige("at["+key+"]:mark:"+mk.Label, "contract-stale", mk.Cond.Src, fr.pos(s.Pos()), st.pc, "false").Clause = "contract-stale: " + err.Error()
+				continue
+			}
+			fr.x.u.oblige("at["+key+"]:mark:"+mk.Label, "assert", mk.Cond.Src, fr.pos(s.Pos()), st.pc, t)
+			fr.x.u.gfact(st.pc, t)
+			ref := env.Eval(mk.Ref)
+			gk := "ghost.mark." + mk.Name
+			fr.x.u.regHeap(gk, "(Array Int Bool)")
+			fr.x.heapStore(st, gk, ref.T, "true")
 		}
 		for _, a := range as.Asserts {
 			env := fr.specEnv(st)
